@@ -32,7 +32,7 @@ def find_pe_files(data: bytes) -> list[Node]:
         size = pe_size(data[mz_offset:])
         if size == 0:
             continue
-        end = mz_offset + size
+        end = min(mz_offset + size, len_data)  # a section table may claim more than the data holds
         pe_files.append(Node("pe_file", data[mz_offset:end], "", mz_offset, end))
     return pe_files
 
